@@ -176,9 +176,14 @@ CHECKS = {
             "generated ten; concurrent append under the registry lock keeps the dictionary well formed in every schedule "
             "and registers every name; witness for the unlocked code. One recorded finding: names that are dict-method "
             "names cannot be registered through attribute access.", "§8 C25", NOTE_CONC),
-    "C26": ("Lean 4 proof of the round trip over an abstract JSON codec + round-trip runs on the real code",
-            "Theorem: with dec(enc j) = some j (CPython json: trusted, exercised by the runs), loads(dumps(e)) has the "
-            "same name, payload and the number the registry assigns (registering a new name).", "§8 C26", NOTE_L1),
+    "C26": ("Lean 4 proof of the round trip, including a model of CPython's JSON text codec (printer / parser round trip) + "
+            "round-trip runs and text-level correspondence on the real code",
+            "Theorems: for any codec with dec(enc j) = some j, loads(dumps(e)) has the same name, payload and the number the "
+            "registry assigns (registering a new name). The codec itself (Text.JsonCodec: json.dumps defaults, the C scanner's "
+            "json.loads, strings as code-point lists): dec(enc v) = some v for every float-free value of any depth whose "
+            "strings hold no high+low surrogate pair; those are exactly the strings that survive (iff); the wire text is "
+            "ASCII; hence the event round trip with no codec hypothesis. The surrogate-pair finding is a theorem of the "
+            "model. Floats are outside the model (round-trip stream only).", "§8 C26", NOTE_L1),
     "C27": ("Lean 4 invariant proofs over all schedules of the get/set protocol + replay and bytecode-granularity search",
             "Theorems (statements correctly classified by the library): no release of an un-owned lock, lock free when all "
             "threads finish, an augmented assignment's write uses the value it read (no lost update, serialisable); "
